@@ -658,15 +658,12 @@ func extractSessionCompositeKey(data any, keys []string) string {
 
 	// Fast path for map[string]any
 	if m, ok := data.(map[string]any); ok {
-		parts := make([]string, 0, len(keys))
-		for _, k := range keys {
-			if val, exists := m[k]; exists {
-				parts = append(parts, cast.ToString(val))
-			} else {
-				parts = append(parts, "")
-			}
+		var b strings.Builder
+		for i, k := range keys {
+			val := m[k]
+			appendGroupKeyPart(&b, i == 0, cast.ToString(val), val == nil)
 		}
-		return strings.Join(parts, "|")
+		return b.String()
 	}
 
 	// Use reflection for structs and other types
@@ -675,24 +672,24 @@ func extractSessionCompositeKey(data any, keys []string) string {
 		v = v.Elem()
 	}
 
-	parts := make([]string, 0, len(keys))
-	for _, k := range keys {
-		var part string
+	var b strings.Builder
+	for i, k := range keys {
+		var val any
 		switch v.Kind() {
 		case reflect.Map:
 			if v.Type().Key().Kind() == reflect.String {
 				mv := v.MapIndex(reflect.ValueOf(k))
 				if mv.IsValid() {
-					part = cast.ToString(mv.Interface())
+					val = mv.Interface()
 				}
 			}
 		case reflect.Struct:
 			f := v.FieldByName(k)
 			if f.IsValid() {
-				part = cast.ToString(f.Interface())
+				val = f.Interface()
 			}
 		}
-		parts = append(parts, part)
+		appendGroupKeyPart(&b, i == 0, cast.ToString(val), val == nil)
 	}
-	return strings.Join(parts, "|")
+	return b.String()
 }
